@@ -196,6 +196,7 @@ type WireSpec struct {
 	Type   string
 	Props  []string
 	Fields [][2]string // Go field name, expected json tag value
+	Types  [][2]string // Go field name, expected Go type of the field (as printed relative to its package)
 	Src    string
 }
 
@@ -731,7 +732,7 @@ type rawLine struct {
 var topKeywords = map[string]bool{"func": true, "spec": true, "pred": true, "lemma": true, "ifacemethod": true, "wire": true}
 var clauseKeywords = map[string]bool{"assumes": true, "returnhint": true, "refines": true, "requires": true, "ensures": true, "panics_if": true, "panics_iff": true, "nopanic": true,
 	"assigns": true, "loop": true, "trusted": true, "inline": true, "fnparam": true, "property": true, "maxpaths": true,
-	"opaque": true, "unfold": true, "json": true}
+	"opaque": true, "unfold": true, "json": true, "gotypes": true}
 
 func firstWord(s string) string {
 	s = strings.TrimSpace(s)
@@ -842,6 +843,14 @@ func (db *SpecDB) addItem(it *rawItem, pkgPath string) (err error) {
 						return fmt.Errorf("%s: json Field=tag expected, got %q", l.src, kv)
 					}
 					ws.Fields = append(ws.Fields, [2]string{kv[:i], kv[i+1:]})
+				}
+			case "gotypes":
+				for _, kv := range strings.Fields(t)[1:] {
+					i := strings.Index(kv, "=")
+					if i <= 0 {
+						return fmt.Errorf("%s: gotypes Field=type expected, got %q", l.src, kv)
+					}
+					ws.Types = append(ws.Types, [2]string{kv[:i], kv[i+1:]})
 				}
 			default:
 				return fmt.Errorf("%s: wire: unknown clause %q", l.src, t)
